@@ -216,6 +216,9 @@ func VerifC05StoreRetry() {
 		zz.Assert(lerr != nil && lerr != context.Canceled, "C05/retry/exhausted-budget-is-fatal")
 		zz.Assert(okStores == 0, "C05/retry/nothing-stored")
 		zz.Assert(in.s.cleaner.GetCommitted("other").IsZero(), "C05/retry/no-commit-notification-without-upload")
+		// C12: storage errors never lead to a wrongful deletion - the cleaner may only learn about a
+		// merged snapshot once this instance has really re-published it
+		zz.Assert(in.s.cleaner.GetCommitted("other").IsZero(), "C12/retry/storage-error-is-not-a-commit-notification")
 		zz.Reach("C05/retry/fatal")
 	} else {
 		zz.Assert(lerr == context.Canceled, "C05/retry/failure-within-budget-is-retried")
